@@ -380,7 +380,7 @@ func (w *Writer) initialize() error {
 // is valid to pass an i outside the range [0, len(w.resourcesIDs)), in which
 // case the call is a no-op.
 func (w *Writer) useResource(i int) (OptResource, error) {
-	if (i < 0) || (len(w.resourcesIDs) < i) {
+	if (i < 0) || (len(w.resourcesIDs) <= i) {
 		return 0, nil
 	}
 	if id := w.resourcesIDs[i]; id != 0 {
